@@ -354,7 +354,7 @@ pub fn strategy(g: &GenCfg) -> BoxedStrategy<Case> {
             for ops in w2 {
                 actors.push(Actor { ctx: CO, role: 1, ops });
             }
-            Case { fam: "panic".into(), workers, pool, feat, cfg: vec![], actors, sched }
+            Case { fam: "panic".into(), workers, pool, feat, cfg: vec![], actors, sched, weak: 0 }
         })
         .boxed()
 }
